@@ -10,7 +10,8 @@ from vlib import (JAR, OUT, RECORDER, SPEC, ToolError, TlcResult, log, parallel,
 
 
 def _tlc_cmd(module, cfg_path, meta, heap="3g", workers=1):
-    return ["java", "-Xss1g", f"-Xmx{heap}", "-XX:+UseSerialGC", "-XX:CICompilerCount=2", "-cp", JAR,
+    gc = ["-XX:+UseSerialGC", "-XX:CICompilerCount=2"] if workers <= 2 else ["-XX:+UseParallelGC", "-XX:ParallelGCThreads=4"]
+    return ["java", "-Xss1g", f"-Xmx{heap}"] + gc + ["-cp", JAR,
             "tlc2.TLC", "-workers", str(workers), "-metadir", meta, "-cleanup", "-noGenerateSpecTE",
             "-config", cfg_path, os.path.join(SPEC, module + ".tla")]
 
@@ -35,7 +36,7 @@ def parse_tlc_log(text):
     return r
 
 
-def gen_replay_shard(module, cfg_path, tag, rec_args, timeout=3000):
+def gen_replay_shard(module, cfg_path, tag, rec_args, timeout=3000, workers=1):
     """Runs `tlc <module> | recorder <rec_args>`; returns (TlcResult, summary dict, obs path)."""
     base = os.path.join(OUT, "work", tag)
     os.makedirs(os.path.dirname(base), exist_ok=True)
@@ -45,7 +46,7 @@ def gen_replay_shard(module, cfg_path, tag, rec_args, timeout=3000):
     env.pop("JAVA_TOOL_OPTIONS", None)
     env["VERIF_SEED"] = str(seed())
     t0 = time.time()
-    tlc = subprocess.Popen(_tlc_cmd(module, cfg_path, meta), cwd=SPEC, env=env, stdout=subprocess.PIPE,
+    tlc = subprocess.Popen(_tlc_cmd(module, cfg_path, meta, workers=workers), cwd=SPEC, env=env, stdout=subprocess.PIPE,
                            stderr=subprocess.STDOUT)
     with open(obsp, "wb") as fo:
         rec = subprocess.Popen([RECORDER] + rec_args + ["--tlc-log", logp, "--summary", sump], stdin=tlc.stdout,
@@ -93,11 +94,11 @@ def merge_obs(paths, dest):
 VERDICT_RE = re.compile(r'^<<"V", (\d+), "([^"]*)", "([^"]*)", "([^"]*)">>', re.M)
 
 
-def judge_expr(trace_path, tag, timeout=1800, heap="6g"):
-    """Runs Judge_Expr over a trace; returns (TlcResult, {case: (class, verdict, entry)})."""
-    cfg = os.path.join(SPEC, "Judge_Expr.cfg")
-    res = run_tlc("Judge_Expr", cfg, tag, workers=1, timeout=timeout, env_extra={"TRACE": trace_path}, heap=heap)
-    tlc_or_die(res, f"Judge_Expr on {trace_path}")
+def judge_expr(trace_path, tag, timeout=1800, heap="6g", module="Judge_Expr"):
+    """Runs a judge module over a trace; returns (TlcResult, {case: (class, verdict, entry)})."""
+    cfg = os.path.join(SPEC, module + ".cfg")
+    res = run_tlc(module, cfg, tag, workers=1, timeout=timeout, env_extra={"TRACE": trace_path}, heap=heap)
+    tlc_or_die(res, f"{module} on {trace_path}")
     verdicts = {int(m.group(1)): (m.group(2), m.group(3), m.group(4)) for m in VERDICT_RE.finditer(res.out)}
     if res.post_failed:
         raise ToolError("judge did not consume every record")
@@ -120,7 +121,7 @@ def split_and_judge(trace_path, tag, nrec, chunk=20000):
     return parallel(jobs, 8)
 
 
-def fuzz_replay(tag, fuzz_args, expr_args, timeout=1200):
+def fuzz_replay(tag, fuzz_args, expr_args, timeout=1200, mode="expr"):
     """`recorder <fuzz_args> | recorder expr <expr_args>`; returns (summary, obs path with a leading table line)."""
     base = os.path.join(OUT, "work", tag)
     os.makedirs(os.path.dirname(base), exist_ok=True)
@@ -131,7 +132,7 @@ def fuzz_replay(tag, fuzz_args, expr_args, timeout=1200):
         fo.write(b'{"table":[]}\n')
         fo.flush()
         gen = subprocess.Popen([RECORDER] + fuzz_args, stdout=subprocess.PIPE, env=env)
-        rec = subprocess.Popen([RECORDER, "expr"] + expr_args + ["--summary", sump], stdin=gen.stdout, stdout=fo,
+        rec = subprocess.Popen([RECORDER, mode] + expr_args + ["--summary", sump], stdin=gen.stdout, stdout=fo,
                                stderr=subprocess.PIPE, env=env)
         gen.stdout.close()
         try:
